@@ -80,21 +80,43 @@ LATITUDE (every use is counted in a ``lat_*`` counter):
 Mechanism ids are structural (computed from the step and the difference):
 ``create-existing-not-refused``, ``delete-missing-not-refused[:noselect-
 parent]``, ``rename-missing-not-refused``, ``rename-onto-existing-not-refused
-[:inferior]``, ``rename-lost-inferior``, ``rename-changed-uids``,
-``rename-lost-messages``, ``rename-inbox-not-empty``, ``rename-inbox-lost-
-messages``, ``inbox-created-or-deleted``, ``inbox-overwritten-by-rename``,
-``list-missing-existing-name:<class>``, ``list-reports-nonexistent-name``,
-``list-pattern-mismatch:<class>``, ``list-noselect-on-existing``,
-``list-selectable-name-not-selectable``, ``list-has[no]children-untruthful``,
-``list-root-response-wrong``, ``lsub-missing-subscribed-name``,
+[:inferior]``, ``rename-lost-inferior``, ``rename-left-source-behind``,
+``rename-changed-uids``, ``rename-lost-messages``, ``rename-inbox-not-empty``,
+``rename-inbox-lost-messages``, ``inbox-created-or-deleted``,
+``inbox-overwritten-by-rename``, ``list-missing-existing-name:<class>``,
+``list-reports-nonexistent-name[:rename-target-below-source]``,
+``list-pattern-mismatch:<class>``, ``list-noselect-on-existing[:inbox-variant-
+parent]`` (a line for INBOX flagged ``\\Noselect`` while a name below another
+spelling of INBOX exists), ``list-selectable-name-not-selectable``,
+``list-has[no]children-untruthful``, ``list-root-response-wrong``,
+``list-wrong-delimiter``, ``lsub-missing-subscribed-name[:<class>]``,
 ``lsub-reports-never-subscribed[:inbox]``, ``lsub-pattern-mismatch:<class>``,
-``no-but-state-changed``, ``name-roundtrip-changed``, ``<cmd>-missing-not-
-refused`` (status, select, append), ``existing-name-refused:<CMD>``,
-``create-yields-nonempty-mailbox``, ``unrelated-mailbox-changed:<CMD>``,
-``append-result-wrong``.  ``<class>`` is the pattern class ``star | percent |
-mixed | literal | ref | empty``; ``:newline-in-name`` / ``:trailing-
-whitespace`` is appended when the name that makes the difference has that
-shape (the structural cause of line-oriented / regex handling).
+``no-but-state-changed:<CMD>:<content|list|lsub|parent-created>``,
+``name-roundtrip-changed``, ``<cmd>-missing-not-refused`` and ``<cmd>-
+noselect-not-refused`` (status, select, append), ``existing-name-refused:
+<CMD>``, ``unsubscribe-subscribed-refused``, ``create-yields-nonempty-
+mailbox``, ``unrelated-mailbox-changed:<CMD>``, ``append-result-wrong``,
+``uidvalidity-unstable`` (STATUS and EXAMINE issued back to back disagree on
+UIDVALIDITY only), ``status-examine-disagree``, ``command-kills-connection:
+<CMD>[:inbox-inferior|:target-below-source]`` (a namespace command under test
+got no tagged answer: outside every allowed set; a death during an
+*observation* command aborts the trace instead, DESIGN section 9 rule 6).
+``<class>`` is the pattern class ``star | percent | mixed | literal | ref |
+empty``; it is replaced by ``newline-in-name`` when the name that makes the
+difference contains CR or LF (regex '.'/'$' and line-oriented files treat
+those specially) and, for LSUB only, by ``trailing-whitespace`` when it ends
+in white space or is what remains of a subscribed name after stripping it.
+
+Known findings and depth: ``cases`` reads the *listed* (status ``known``)
+mechanisms of this property and switches their input class off in the
+generator (``avoid_switch``; an entry may restrict that to some backends with
+``"avoid_backends": [...]``) so that not every trace ends on the same defect;
+the listed finding is still exercised by its scripted trigger.
+
+Scripted triggers: ``{'script': 'ops', 'backend': ..., 'seed': n, 'ops':
+[['CREATE', name], ['RENAME', a, b], ['LIST', ref, pattern], ...]}`` -- names
+are plain (decoded) strings; the ops run under the same oracle, with full
+LIST/LSUB/dump comparison after every step (LIST/LSUB ops are probes).
 """
 
 from __future__ import annotations
@@ -271,7 +293,7 @@ EDGE_WS_NAMES = ['a ', ' a', 'a \t', 'sp ace ', 'a/b ', 'a /b', 'a ',
 DEGENERATE_NAMES = ['', 'a//b', '/a', 'a/', '.', '..', 'a/../b', 'a/./b',
                     '/', '//', 'a/b/', '../x']
 UNI_NAMES = ['é', 'ü/中', '中文', '\U0001f600', 'a/\U00010348', 'é&é',
-             '&AOk-', '‮x', 'x﻿', 'é/é/é/é']
+             '&AOk-', '\u202ex', 'x\ufeff', 'é/é/é/é']
 
 
 def fresh_name(rng: random.Random, backend: str) -> str:
@@ -1567,15 +1589,17 @@ class C11(Check):
         'UID values are compared only for equality before/after RENAME '
         '(C04 owns their monotonicity); RENAME INBOX compares X-VF-ID sets',
     ]
-    floors = {'steps_compared': 6000, 'list_full_comparisons': 6000,
-              'lsub_full_comparisons': 6000, 'pattern_comparisons': 15000,
-              'pattern_list_star': 1200, 'pattern_list_percent': 1200,
-              'pattern_list_ref': 1500, 'pattern_list_literal': 600,
-              'pattern_list_mixed': 300, 'renames_content_checked': 400,
-              'rename_with_inferiors': 60,
-              'refusals_unchanged_checked': 1500, 'create_ok': 2000,
-              'rename_ok': 300, 'delete_ok': 300, 'dumps': 20000,
-              'refusals_required_seen': 600}
+    floors = {'steps_compared': 4000, 'list_full_comparisons': 4000,
+              'lsub_full_comparisons': 4000, 'pattern_comparisons': 12000,
+              'pattern_list_star': 2000, 'pattern_list_percent': 2000,
+              'pattern_list_ref': 1500, 'pattern_list_literal': 2000,
+              'pattern_list_mixed': 300, 'pattern_lsub_star': 400,
+              'renames_content_checked': 300, 'rename_with_inferiors': 50,
+              'rename_inbox_ok': 30, 'refusals_unchanged_checked': 800,
+              'refusals_required_seen': 700, 'create_ok': 1200,
+              'rename_ok': 200, 'delete_ok': 150, 'subscribe_ok': 150,
+              'unsubscribe_ok': 100, 'dumps': 12000,
+              'full_dump_steps': 2000, 'probe_missing': 200}
     time_cap = {'quick': 60.0, 'thorough': 600.0}
 
     def cases(self, tier: str, seed: int) -> Iterable[dict[str, Any]]:
